@@ -331,6 +331,9 @@ def rejecting_checks_by_module(c, scope, name_pat, unconditional=None):
                 rel, d = rules.cmp_rejects(f, cx)
                 if rel is not None:
                     out[mod] = out.get(mod, 0) + 1
+                    if unconditional is not None and cx["kind"] == "call" and cx["op"] in ("Eq", "Ne") and \
+                            re.search(r"^&*(std::vec::Vec<|\[|std::collections::BTree(Map|Set)<|&\[)", cx.get("self_ty") or ""):
+                        unconditional["#coll:" + mod] = unconditional.get("#coll:" + mod, 0) + 1
                     br = rules.cmp_branches(f, cx)
                     sb = br[0] if br else cx["bb"]
                     if unconditional is not None and acc and all(f.dominates(sb, a) for a in acc):
@@ -369,6 +372,14 @@ def rejecting_checks_floor(ck, c, scope, name_pat, spec_key, rule="CMP"):
         ck.ob(rule, mod, "unconditional-checks-not-fewer", unc.get(mod, 0) >= nref,
               "%d checks that every accepting path of their function passes (reference %d)" % (unc.get(mod, 0), nref) if unc.get(mod, 0) >= nref else
               "%d checks are passed by every accepting path of their function, reference %d: a check was removed or moved behind a condition" % (unc.get(mod, 0), nref), "")
+    # whole-collection equalities (`a != b` on vectors, slices, ordered maps/sets): replacing one by a length test plus a
+    # one-directional containment admits substitutions and duplicates
+    cref = json.load(open(path)).get(spec_key + "#collection-equalities", {}) if os.path.exists(path) else {}
+    for mod, nref in sorted(cref.items()):
+        got = unc.get("#coll:" + mod, 0)
+        ck.ob(rule, mod, "collection-equalities-not-fewer", got >= nref,
+              "%d refusing equality tests between whole collections (reference %d)" % (got, nref) if got >= nref else
+              "%d refusing equality tests between whole collections, reference %d: an element-wise/ordered comparison was replaced by something weaker" % (got, nref), "")
     ck.extra["unconditional_checks"] = unc
     return cur
 
